@@ -15,17 +15,18 @@ class C19(Cfg):
     lean_targets = ["dmodel_serve"]
     harness_pkg = "dv-serve"
     model_exe = "dmodel_serve"
-    design_ref = "DESIGN.md §6 C19, §4 site 12, App. A.11"
+    design_ref = "DESIGN.md §6 C19 (+ C08 for the composition), §4 site 12, App. A.11"
     technique = ("Lean 4 proofs over a model of initialise_connection and of the PeerManager token table + decide-checked witness "
                  "+ correspondence run of the real initialise_connection against a scripted remote, the real PeerManager table and the real MeetingSecret")
     level_text = ("Theorems (Lean 4, every reply of the remote side, every token type, every table): a connection is bound to key k only if the remote presented a valid peer row of k and a signature of THIS connection's challenge under k, "
                   "with k the expected key for an allowed peer and the invitation's signature valid under k for an accepted invitation; any outcome other than Ok(true) binds nothing and sends nothing (caller disconnects); "
                   "an answer recorded on another connection (signature over a different challenge) is rejected; the valid key of another allowed peer is refused; an invitation for another application is refused and leaves the table unchanged; "
-                  "the meeting token is symmetric (commutativity of the model key agreement); once invite_accepted has run, no token and no key reaches the invitation any more (single use). "
+                  "the meeting token is symmetric (commutativity of the model key agreement); once invite_accepted has run, no token and no key reaches the invitation any more (single use), and it stays unreachable through ANY later history of the table (invitations created / accepted / refused / consumed, restarts) that does not issue the same id again (C19_invite_stays_consumed); over any history the table only ever holds accepted invitations of this application (C19_table_holds_own_application_only). "
+                  "Composition with the serving side (C08's model, any description of the serving code): the key requests are served under is exactly the key bound by the handshake, whatever happens on the connection afterwards (C19_serving_key_is_proven_key); after a handshake that does not return Ok(true) every request of every kind gets silence, a refusal or the public identity proof, for ever (C19_failed_proof_is_served_nothing); any room list, fingerprint or data answer implies that the remote presented a valid peer row and a signature of this connection's challenge under the serving key, which is the expected key / the invitation's signer (C19_served_only_after_proof). "
                   "The single-use statement was FALSE of the code as found (the consumed invitation was removed under the new peer's token and stayed usable until restart: confirmed on the real PeerManager), fixed in /repo by 7ec64bc; "
                   "the defect is kept as a decide-checked regression witness and a corpus case. "
                   "'Tokens differ between distinct pairs' is NOT a theorem (56-bit truncation of a hash): the check samples real tokens and reports repeats. "
-                  "Tie: real LocalPeerService::initialise_connection with a scripted remote (honest, wrong key, replayed answer, valid key of another allowed peer, a self-signed peer row carrying the expected peer's row id under another key and its sibling, malformed peer rows, error / closed / undecodable answers) x every token type x local key (exhaustive product) and random sequences; "
+                  "Tie: real LocalPeerService::initialise_connection, followed on the SAME key / readiness cells by a real InboundQueryService loop asked for the room list, the hardware fingerprint and the private room (what is served after each handshake outcome), with a scripted remote (honest, wrong key, replayed answer, valid key of another allowed peer, a self-signed peer row carrying the expected peer's row id under another key and its sibling, malformed peer rows, error / closed / undecodable answers) x every token type x local key (exhaustive product) and random sequences; "
                   "real PeerManager (create_invite, accept_invite incl. arbitrary bytes and foreign applications, get_token_type, invite_accepted, and RESTART = a new PeerManager built from the same database) for invitation reuse patterns; real MeetingSecret::token both ways.")
     level_note = ("Trusted: Lean kernel (+propext, Classical.choice, Quot.sound), idealised signatures and key agreement (no truncation), the hand-written model, the correspondence harness. "
                   "Modelled and exercised: initialise_connection, IdentityAnswer::verify, Peer::validate (as a boolean), the allowed_token table, MeetingSecret::token. "
@@ -89,6 +90,20 @@ class C19(Cfg):
                     res.append(("success-without-key", out))
                 if "accepted:" in o.get("msgs", "") and tt == "allowed":
                     res.append(("invite-consumed-without-invite", out))
+                # the serving side of the same connection (a real InboundQueryService sharing the key / readiness cells)
+                if "serve" in o:
+                    sv = (o["serve"].split("|") + ["", "", ""])[:3]
+                    if o["serve"].startswith("err:"):
+                        res.append(("harness-error", "%s -> %s" % (op[:70], out)))
+                    elif bound == "-" and sv != ["silent", "silent", "refused"]:
+                        res.append(("served-without-proof", "after a handshake that bound no key the serving side answered %s" % o["serve"]))
+                    else:
+                        if sv[0].startswith("rooms") and o.get("ready") != "1":
+                            res.append(("room-list-before-ready", out))
+                        if sv[1] == "fingerprint" and bound != "1":
+                            res.append(("fingerprint-leak", "hardware fingerprint sent to key %s" % bound))
+                        if (sv[0].startswith("rooms:") or sv[2].startswith("data")) and bound != "1":
+                            res.append(("private-room-served", "the instance's private room served to key %s: %s" % (bound, o["serve"])))
             elif kind == "pm-accepted":
                 n = kv.get("inv")
                 if out == "ok" and n in foreign:
